@@ -45,6 +45,8 @@ class R:
         return self.kind in ('map', 'seq')
 
     def falsy(self):
+        if self.tag == 'fn':
+            return False          # a function node is truthy as long as it names a target
         if self.composed():
             return not self.ch
         if self.kind in ('req', 'clear'):
@@ -85,6 +87,8 @@ def resolve(n, stage=0, inh_prio=None, inh_del=None, inh_new=None):
         r = R('sc', v=None if n.get('vdel') else n['v'], vdel=bool(n.get('vdel')))
     else:
         r = R(t)
+        if n.get('fnode'):
+            r.tag = 'fn'
     r.prio = prio if prio is not None else S
     r.xdel = xdel
     if xdel is not None:
